@@ -43,6 +43,14 @@ PROPS = {
                 "of the same stream + ordering/extent rules + the C01 excerpt oracle; non-trivial = at least one record emitted and at least one cut",
         "assumptions": ["unsigned streams (edge-multi ignores signedness)", "staircase streams with sub-threshold ripple; 1-3 edges"],
     },
+    "C09": {
+        "pkg": ".", "hdir": "dastard", "harness": DASTARD_COMMON + ["zz_verif_trig_test.go", "zz_verif_c09_test.go"], "test": "TestVerifC09",
+        "quick": T(16, 90), "thorough": T(16, 600),
+        "rule": "BFS: every (connection set, edit) pair executed once through the real ChangeGroupTrigger/StopTriggerCoupling/SetCoupling, followed by "
+                "9 data cycles through the real ProcessSegments (every subset of channels firing, and two sources firing on one frame); "
+                "DFS: all edit sequences to the depth bound with cycles after every edit; non-trivial = at least one secondary record was emitted",
+        "assumptions": ["edits issued directly on the source (RPC queueing is C11)", "a frame fired by m connected sources may appear 1..m times (DESIGN 7.5)"],
+    },
     "C12": {
         "pkg": ".", "hdir": "dastard", "harness": DASTARD_COMMON + ["zz_verif_c12_test.go"], "test": "TestVerifC12",
         "quick": T(16, 60), "thorough": T(16, 600),
